@@ -153,10 +153,26 @@ def null_rhs(ctx):
             Lm = R.Lfun.fn(R.I, t, R.xfun.fn(R.I, t))
             ref = (Lm @ F).flatten()
             okF = isinstance(res, np.ndarray) and res.shape == y.shape and all(alg.decide(alg.unfold_all(lift(a)), b)[0] == "equal" for a, b in zip(res[:9], ref))
-            okT = isinstance(res, np.ndarray) and all(alg.unfold_all(lift(c)).is_zero() for c in res[9:])
+            okT = isinstance(res, np.ndarray) and all(is_identically_zero(c) for c in res[9:])
             ctx.ob("C07.null-rhs", tag + ":F block == L·F", okF, f"dF/dt block {short(list(res[:3]) if isinstance(res, np.ndarray) else res, 120)}", mloc)
             ctx.ob("C07.null-rhs", tag + ":texture rates == 0", okT, "", mloc)
     ctx.floor("C07.null-rhs", 8)
+
+
+def is_identically_zero(c):
+    """structurally zero, or zero after unfolding; a form that evaluates to a non-zero number at a witness point is not zero (decided without
+    unfolding it, which for a full kernel rate would not terminate in reasonable time)"""
+    c = lift(c)
+    if not c.t:
+        return True
+    for seed in (1, 2, 3):
+        try:
+            v = alg.evalf(c, seed=seed)
+        except alg.AlgError:
+            continue
+        if v == v and abs(v) > 1e-9:
+            return False
+    return alg.decide(c, ZERO)[0] == "equal"
 
 
 def history(ctx):
